@@ -20,9 +20,12 @@ func (consumer *Consumer) Loop() {
 		if consumer.lifecycle.IsKilled() {
 			return
 		}
+		// read the step before the queues: if the close step is already announced every
+		// producer has finished, so queues seen empty afterwards stay empty
+		closed := consumer.lifecycle.Step() == StepClose
 		if len(consumer.loopData.chans.dirChan) == 0 &&
 			len(consumer.loopData.chans.fileChan) == 0 {
-			if consumer.lifecycle.Step() == StepClose {
+			if closed {
 				return
 			}
 			runtime.Gosched()
